@@ -2,5 +2,6 @@ import CachedModel.Basic
 import CachedModel.Sketch
 import CachedModel.Admission
 import CachedModel.State
+import CachedModel.Iter
 import CachedModel.Glue
 import CachedModel.Driver
